@@ -175,7 +175,7 @@ PROPS = {
     },
     'C07': {
         'v_units': [],
-        'k_units': ['quote', 'lexclass'],
+        'k_units': ['quote', 'lexclass', 'qvalue'],
         'level': 'other',
         'explanation': (
             'Quoting-decision kernel only. Kani proves, loop-free over EVERY char (complete), that '
@@ -186,9 +186,11 @@ PROPS = {
             'Bounded (concrete enumeration): the whole quoting function (str_needs_quoting decision + Display for Quoted) is run on '
             'every text of <= 2 characters over 16 special and ordinary characters and on ten 3-character texts (:~, {a}, [a], '
             'mixed quotes) and its output compared with the literal expected form; every expected form was re-read by a reference '
-            'un-quoter written from XCU 2.2 (tools/gen_quote.py) and denotes exactly the original text as one field. NOT decided: '
-            'longer texts, the real lexer re-reading the output (async), and the state-listing built-ins (alias, typeset -p, trap, ...), '
-            'which need the shell to evaluate its own output.'),
+            'un-quoter written from XCU 2.2 (tools/gen_quote.py) and denotes exactly the original text as one field. The value '
+            'printer the listings of variables go through (yash-env/src/variable/value.rs Value::quote / Display for QuotedValue) is run on '
+            'five concrete values: a scalar is its quoted form, an array is "(" + the items quoted one by one, one space between them + ")". '
+            'NOT decided: longer texts, the real lexer re-reading the output (async), and the state-listing built-ins themselves (alias, '
+            'typeset -p, trap, ...), which need the shell to evaluate its own output.'),
         'trusted_base': ['Kani 0.68.0 + CBMC 6.11'],
         'assumptions': [
             'the always-quote set is my reading of XCU 2.2 plus yash\'s Unicode blanks',
